@@ -269,11 +269,19 @@ RawNode Imperative(RawNode imp, RawNode value, RawNode actions, RawNode rc) {
 bool SemanticCheck(ParserState* state, RawNode root) {
   std::vector<Node*> stack{ root.get() };
   std::vector<Node*> parents{ nullptr };
+  std::vector<int32_t> depths{ 1 };
   while (!stack.empty()) {
     auto *const node = stack.back();
     stack.pop_back();
     auto *const parent = parents.back();
     parents.pop_back();
+    const auto depth = depths.back();
+    depths.pop_back();
+
+    if (depth > ParserState::MAX_TREE_DEPTH) {
+      state->OnError(ParseEID::syntax, node->token.pos.start);
+      return false;
+    }
 
     const auto id = node->token.id;
     if (id == TokenID::ASSIGN || id == TokenID::ITERATE) {
@@ -285,6 +293,7 @@ bool SemanticCheck(ParserState* state, RawNode root) {
     for (const auto& child: node->children) {
       stack.emplace_back(child.get());
       parents.emplace_back(node);
+      depths.emplace_back(depth + 1);
     }
   }
   return true;
